@@ -710,6 +710,29 @@ class VM:
         c = st.cand.get(tid)
         if c is not None:
             return c
+        doms = s.opts.get('domains')
+        if doms and not exact:
+            # a term over ONE variable whose domain the obligation has declared (a symbolic text byte): its values by
+            # substitution instead of a solver loop (an over-approximation, like every candidate set)
+            c = st.run_cache.get(tid) if st.run_cache is not None else None
+            if c:
+                return c
+            vs = _free_vars(term, 2)
+            if len(vs) == 1 and vs[0].decl().name() in doms:
+                v = vs[0]
+                vals = set()
+                for x in doms[v.decl().name()]:
+                    r = z3.simplify(z3.substitute(term, (v, z3.BitVecVal(x, v.size()))))
+                    if not z3.is_bv_value(r):
+                        vals = None
+                        break
+                    vals.add(r.as_long())
+                if vals is not None and len(vals) <= limit:
+                    c = sorted(vals)
+                    if st.run_cache is not None:
+                        st.run_cache[tid] = c
+                        st.run_keep.append(term)
+                    return c
         if not exact and st.run_cache is not None:
             c = st.run_cache.get(tid)
             if c is None:
@@ -789,6 +812,9 @@ class VM:
             raise Terminal('memerr', "address depends on uninitialised memory")
         K, rest = s.split_addr(addr)
         vals = s.values_of(st, rest)
+        if s.opts.get('trace_big') and len(vals) > s.opts['trace_big']:
+            from . import stubs as _st
+            print("BIG RESOLVE %d candidates in %s" % (len(vals), ' <- '.join(f.fn.name[:110] for f in reversed(st.frames[-3:]))))
         out = []
         for v in vals:
             a = (K + v) & M64
@@ -1689,6 +1715,27 @@ def _insert(x, idx, v):
     lst = list(x)
     lst[idx[0]] = _insert(lst[idx[0]], idx[1:], v)
     return tuple(lst)
+
+
+def _free_vars(term, stop_after):
+    """the free variables of term (at most stop_after+1 are collected)"""
+    seen = set()
+    out = {}
+    todo = [term]
+    while todo:
+        t = todo.pop()
+        i = t.get_id()
+        if i in seen:
+            continue
+        seen.add(i)
+        if z3.is_const(t):
+            if t.decl().kind() == z3.Z3_OP_UNINTERPRETED:
+                out[i] = t
+                if len(out) > stop_after:
+                    break
+            continue
+        todo.extend(t.children())
+    return list(out.values())
 
 
 def merge_cells(g, a, b, st=None):
